@@ -103,7 +103,9 @@ def init_impl(mj, init, int_cont=False):
 class ImplFns:
     """solve / simulate functions of one specification (built once, reused across calls)"""
 
-    def __init__(self, mj, jit=True):
+    _count = 0
+
+    def __init__(self, mj, jit=True, history=None):
         impl()
         from lcm.entry_point import get_lcm_function
 
@@ -113,6 +115,35 @@ class ImplFns:
         self.simulate, _ = get_lcm_function(self.model, targets="simulate", jit=jit)
         self._sas = None
         self.jit = jit
+        # every third instance lives through a *history*: each solve / simulate call is preceded by another call on the same
+        # function object - solve with other parameter values, simulate with the very same argument objects and another seed.
+        # The oracles only see the second result, so state kept between calls, arguments written to, or results depending on
+        # the number of previous calls surface in whatever property is being checked.
+        ImplFns._count += 1
+        self.history = history if history is not None else (ImplFns._count % 3 == 0)
+        if self.history:
+            raw_solve, raw_sim = self.solve, self.simulate
+
+            def solve_h(params):
+                import copy
+
+                p2 = copy.deepcopy(params)
+                for k_, v_ in p2.items():
+                    if k_ == "beta":
+                        p2[k_] = 0.5 * float(v_) + 0.125
+                    elif k_ != "shocks" and isinstance(v_, dict):
+                        for kk_ in v_:
+                            v_[kk_] = float(v_[kk_]) + 0.25
+                raw_solve(p2)
+                return raw_solve(params)
+
+            def simulate_h(params, **kw):
+                kw2 = dict(kw)
+                kw2["seed"] = int(kw.get("seed", 0) or 0) + 17
+                raw_sim(params, **kw2)
+                return raw_sim(params, **kw)
+
+            self.solve, self.simulate = solve_h, simulate_h
 
     @property
     def solve_and_simulate(self):
